@@ -25,6 +25,8 @@ fn r#match(_d: &impl std::any::Any, r#match: i64, arg1: i64, _: i64) -> i64 { r#
 fn at(_d: &impl std::any::Any, whole @ P(_, _): P, n @ _: i64) -> i64 { whole.0 + whole.1 + n }
 #[entrait(ArgNames)]
 fn arg_names(_d: &impl std::any::Any, arg1: i64, (p, q): (i64, i64), _arg2: i64, _: i64) -> i64 { arg1 * 1000 + p * 100 + q * 10 + _arg2 }
+#[entrait(ModesInside)]
+fn modes_inside(_d: &impl std::any::Any, P(mut m, _): P, Q { ref a, .. }: Q, (ref mut n, _): (i64, bool)) -> i64 { m += 1; *n += 1; m * 100 + *a * 10 + *n }
 #[entrait(NoDepsPat, no_deps)]
 fn no_deps_pat(P(x, y): P, _: i64, mut z: i64) -> i64 { z += x; z * 10 + y }
 #[entrait(pub InMod)]
@@ -49,10 +51,11 @@ fn main() {
     same!("match", r#match(&app, 1, 2, 3), app.r#match(1, 2, 3));
     same!("at", at(&app, P(1, 2), 3), app.at(P(1, 2), 3));
     same!("arg_names", arg_names(&app, 1, (2, 3), 4, 5), app.arg_names(1, (2, 3), 4, 5));
+    same!("modes_inside", modes_inside(&app, P(1, 2), Q { a: 3, b: 4 }, (5, true)), app.modes_inside(P(1, 2), Q { a: 3, b: 4 }, (5, true)));
     same!("no_deps_pat", no_deps_pat(P(1, 2), 3, 4), app.no_deps_pat(P(1, 2), 3, 4));
     same!("in_mod", m::in_mod(&app, P(1, 2), (3, 4)), app.in_mod(P(1, 2), (3, 4)));
     same!("trait.tp", ().tp(1, 2), app.tp(1, 2));
     same!("trait.tp2", ().tp2(1, 2), app.tp2(1, 2));
-    println!("C16-PROBE cases=14 failed={bad}");
+    println!("C16-PROBE cases=15 failed={bad}");
     std::process::exit(if bad == 0 { 0 } else { 1 });
 }
